@@ -240,6 +240,11 @@ def parse_into_datetime(
     if isinstance(value, dt.date):
         if hasattr(value, 'hour'):
             ts = value
+            if ts.tzinfo is None or ts.tzinfo.utcoffset(ts) is None:
+                # A timezone-naive value means UTC (that is how it is
+                # serialized); say so, so that it compares with other
+                # timestamps.
+                ts = pytz.utc.localize(ts)
         else:
             # Add a time component
             ts = dt.datetime.combine(value, dt.time(0, 0, tzinfo=pytz.utc))
